@@ -9,6 +9,7 @@ bootstrap.ensure()
 
 ID = "C06"
 LEVEL = "exploration"
+TECHNIQUE = "runtime monitoring: every tree node executed and compared with its declared columns / bounds / flags"
 RULE = (
     "seeded random programs in the iteration engine (with iteration->iteration transfers and materializations) and "
     "in the SQL engine (joins, chains, nested selects), over leaves whose declared bounds are truthful but drawn from "
